@@ -435,7 +435,13 @@ def gen_C06(seed):
             op["t"] = round(cur + (tf - cur) * r.uniform(0.2, 0.8), 6)
             cur = op["t"]
         if with_events and (r.random() < 0.8):
-            op["events"] = sorted(r.sample(range(len(scn["events"])), r.randint(1, len(scn["events"]))))
+            pool = list(range(len(scn["events"])))
+            if j > 0:
+                # a terminal event that already stopped an earlier call fires again at the starting point of the next one (g = 0
+                # there, as in scipy): continuations only monitor the non-terminal events
+                pool = [e_ for e_ in pool if not scn["events"][e_]["terminal"]]
+            if pool:
+                op["events"] = sorted(r.sample(pool, r.randint(1, len(pool))))
         ops.append(op)
     scn["ops"] = ops
     rf = sub(seed, "faults")
